@@ -14,7 +14,9 @@
    (flat cache ignoring the eclass directory) must make TLC find a ReadFresh counterexample.   *)
 EXTENDS CacheValidity, Sequences, TLC
 CONSTANTS Kinds,        \* cache kinds to explore: subset of {"md5", "flat"}
-          MaxCid, InitCid, MaxSteps, CheckEclasses, CheckDir
+          MaxCid, InitCid,   \* content ids edits may use / initial files may have
+          InitInh,           \* what the initial ebuild may inherit: subset of InhCodes
+          MaxSteps, CheckEclasses, CheckDir
 
 VARIABLES Kind, w, en, clock, last, steps, seen
 vars == <<Kind, w, en, clock, last, steps, seen>>
@@ -23,7 +25,7 @@ Files(n) == {AbsentFile} \cup {[cid |-> c, nest |-> x, mt |-> 0] : c \in 1..Init
 InitWorlds == {[eb |-> [cid |-> 1, inh |-> i, mt |-> 0],
                 ecl |-> [r \in Repos |-> [n \in Eclasses |-> IF r = "m" THEN (IF n = "a" THEN ma ELSE mb)
                                                                        ELSE (IF n = "a" THEN oa ELSE ob)]]] :
-                 i \in InhCodes, ma \in Files("a"), mb \in Files("b"), oa \in Files("a"), ob \in Files("b")}
+                 i \in InitInh, ma \in Files("a"), mb \in Files("b"), oa \in Files("a"), ob \in Files("b")}
 NoLast == [isread |-> FALSE]
 
 Init == /\ Kind \in Kinds
